@@ -239,6 +239,9 @@ func (fx *Fx) runLoop(st *State, lp *loopParts) {
 		head.havocAllHeaps()
 	} else {
 		for k := range ms.heaps {
+			if k == "ONCE" {
+				continue
+			}
 			head.havocHeap(k)
 		}
 	}
